@@ -17,7 +17,7 @@ from lib.pyrepr_check import cps, to_s, g_cps
 ID = 'C12R'
 IMPORTS = ['Comp.PyRepr', 'Comp.PyLex', 'Comp.RunPyRepr']
 THEOREMS = ['C12R_repr_cannot_escape', 'C12R_repr_cannot_escape_unconditional_refuted',
-            'C12R_repr_cannot_escape_short', 'C12R_repr_cannot_escape_before', 'C12R_repr_prefix_free',
+            'C12R_repr_cannot_escape_short', 'C12R_repr_body_any_quote', 'C12R_repr_cannot_escape_before', 'C12R_repr_prefix_free',
             'C12R_repr_no_newline', 'C12R_repr_no_control', 'C12R_repr_output_chars',
             'C12R_repr_ascii_when_nothing_printable', 'C12R_repr_delimited', 'C12R_quote_choice',
             'C12R_lex_consumes_prefix', 'C12R_lex_literal_shape', 'C12R_lex_one_line']
@@ -229,7 +229,9 @@ def compare(case, io_, mo):
     elif full != 0:
         return 'model lexer ignores the triple-quote rule'
     if io_['gen'] != mrepr:
-        return "the compiler's spelling of the string (generate_expr) is not py_repr s"
+        back = io_['gen_tok'].get('class') == 'short' and io_['gen_tok'].get('value') == s and io_['gen_tok'].get('rest') == rest
+        return ("the compiler's spelling of the string (generate_expr) is not py_repr s: the tie between the theorem and the "
+                "code is broken (CPython %s lex this spelling back to s)" % ('does' if back else 'does NOT'))
     e = io_.get('e2e')
     if e is not None and e[0] == 'ok':
         if e[1] != [mrepr] * 4:
